@@ -247,7 +247,7 @@ def main(tier):
     from harness import C18
     fc = [dict(c, pid_=PID) for c in C18.configs(tier, driver.seed_of())[0]
           if (c['kind'] == 'polar' and c['k'] in (0, 4) and c['p'] in (3, 4)) or (c['kind'] == 'complex' and min(c['kr'], c['ki']) >= 0)
-          or (c['kind'] == 'display' and c['helper'] in ('real', 'abs', 'complex', 'polar', 'sin', 'power', 'pq') and c['p'] in (3, 4) and -5 <= c['k'] <= 4 and c['k'] != -1
+          or (c['kind'] == 'display' and c['helper'] in ('real', 'abs', 'complex', 'polar', 'sin', 'power', 'pq') and c['p'] in (3, 4) and -8 <= c['k'] <= 4 and c['k'] != -1
               and c.get('kp') != -1 and c.get('ki', 0) != -1 and c.get('kq', 0) != -1)]
     driver.run_pool(driver.guarded(C18.worker), fc, rep, chunksize=2)
     return rep.finish(
